@@ -243,6 +243,7 @@ func cmdCheck(args []string) int {
 	}
 	run.collect(sweeps)
 	run.solve()
+	run.runBounded()
 	if os.Getenv("GOVC_WRITE_HINTS") != "" {
 		// maintenance mode (never part of a registered check): remember which portfolio variant discharged an
 		// obligation the primary configuration could not
